@@ -204,55 +204,63 @@ Definition bounded_support (f : dfam) : bool :=
 
 Definition none_or_refuse (fixed : bool) : outcome := if fixed then ORefused else ONone.
 
-(* cond = some parameter other than the location-type one is unspecified; the call passes only the
-   evaluation point.  insupp = evaluation point (and parameters) inside the support. *)
-Definition analytic (fx : fixes) (f : dfam) (g : geomk) (m : meank) (cond insupp : bool) : outcome :=
+(* route of the call.  RDirect: dist.gradient(x) on the distribution itself (for a callable location-type
+   parameter the conditioning variable is NOT supplied).  RLik: dist.to_likelihood(data).gradient(theta)
+   (positional), meaningful only for a callable location-type parameter. *)
+Inductive route := RDirect | RLik.
+
+(* cond = some parameter other than the location-type one is unspecified (None).
+   insupp = evaluation point (data, for RLik) and parameters inside the support. *)
+Definition analytic (fx : fixes) (f : dfam) (g : geomk) (m : meank) (r : route) (cond insupp : bool) : outcome :=
   let idgeo := match g with GeoIdentity => true | _ => false end in
   let okgeo := match g with GeoOther => false | _ => true end in
-  match f with
-  | DGaussian =>
-      if negb okgeo then ORefused else
-      match m with
-      | MeanConst => if cond then ORefused else OGrad
-      | MeanModel => OGrad
-      | MeanCallable => none_or_refuse (fix8_gauss fx)
+  match m with
+  | MeanConst =>
+      match f with
+      | DGaussian => if negb okgeo then ORefused else if cond then ORefused else OGrad
+      | DGMRF | DCMRF => if negb idgeo then ORefused else if cond then ORefused else OGrad
+      | DCauchy | DBeta | DInvGamma | DLognormal =>
+          if negb idgeo then ORefused else if cond then ORefused else if insupp then OGrad else ONaN
+      | DSmoothedLaplace => if cond then ORefused else OGrad
+      | DMHN | DUniform => if cond then ORefused else if insupp then OGrad else ONaN
+      | DUserWithGrad => OGrad
+      | DUserNoGrad | DNoAnalytic => ORefused
       end
-  | DGMRF =>
-      if negb idgeo then ORefused else
-      match m with MeanConst => if cond then ORefused else OGrad | _ => none_or_refuse (fix8_gmrf fx) end
-  | DCMRF =>
-      if negb idgeo then ORefused else
-      match m with MeanConst => if cond then ORefused else OGrad | _ => none_or_refuse (fix8_cmrf fx) end
-  | DCauchy | DBeta | DInvGamma =>
-      if negb idgeo then ORefused else if cond then ORefused else
-      match m with MeanConst => if insupp then OGrad else ONaN | _ => ORefused end
-  | DLognormal =>
-      if negb idgeo then ORefused else
-      match m with
-      | MeanConst => if cond then ORefused else if insupp then OGrad else ONaN
-      | MeanModel => if insupp then OGrad else ONaN
-      | MeanCallable => none_or_refuse (fix8_lognormal fx)
+  | _ =>
+      match f, r with
+      | DGaussian, RLik =>
+          if negb okgeo then ORefused else
+          match m with MeanModel => if cond then ORefused else OGrad | _ => none_or_refuse (fix8_gauss fx) end
+      | DGaussian, RDirect =>
+          if negb okgeo then ORefused else
+          match m with MeanModel => ORefused | _ => none_or_refuse (fix8_gauss fx) end
+      | DLognormal, RLik =>
+          if negb idgeo then ORefused else
+          match m with MeanModel => if cond then ORefused else if insupp then OGrad else ONaN
+                     | _ => none_or_refuse (fix8_lognormal fx) end
+      | DLognormal, RDirect =>
+          if negb idgeo then ORefused else
+          match m with MeanModel => ORefused | _ => none_or_refuse (fix8_lognormal fx) end
+      | DGMRF, RDirect => if negb idgeo then ORefused else none_or_refuse (fix8_gmrf fx)
+      | DCMRF, RDirect => if negb idgeo then ORefused else none_or_refuse (fix8_cmrf fx)
+      | _, _ => ORefused       (* signature mismatch (GMRF/CMRF through a likelihood), is_cond guard, arithmetic on a callable *)
       end
-  | DSmoothedLaplace =>
-      match m with MeanConst => if cond then ORefused else OGrad | _ => ORefused end
-  | DMHN | DUniform =>
-      match m with MeanConst => if cond then ORefused else if insupp then OGrad else ONaN | _ => ORefused end
-  | DUserWithGrad => OGrad
-  | DUserNoGrad | DNoAnalytic => ORefused
   end.
 
-Definition dispatch (fx : fixes) (f : dfam) (g : geomk) (m : meank) (cond fd insupp : bool) : outcome :=
-  if fd && negb (overrides_gradient f) then
-    (match m with
-     | MeanConst => if cond then ORefused else if insupp || negb (bounded_support f) then OFD else ONaN
-     | _ => ORefused     (* approx_gradient(self.logd, x): the conditioning variable is missing *)
-     end)
-  else analytic fx f g m cond insupp.
+Definition dispatch (fx : fixes) (f : dfam) (g : geomk) (m : meank) (r : route) (cond fd insupp : bool) : outcome :=
+  let fdres := if cond then ORefused else if insupp || negb (bounded_support f) then OFD else ONaN in
+  match m, r with
+  | MeanConst, _ => if fd && negb (overrides_gradient f) then fdres else analytic fx f g m r cond insupp
+  | _, RLik =>       (* Likelihood.gradient consults the switch itself: approx_gradient(likelihood.logd, theta) *)
+      if fd then (match f with DMHN => ORefused | _ => fdres end) else analytic fx f g m r cond insupp
+  | _, RDirect =>    (* approx_gradient(self.logd, x): the conditioning variable is missing *)
+      if fd && negb (overrides_gradient f) then ORefused else analytic fx f g m r cond insupp
+  end.
 
 Definition outcome_eqb (a b : outcome) : bool :=
   match a, b with
   | OGrad, OGrad | OFD, OFD | ORefused, ORefused | ONone, ONone | ONaN, ONaN => true
   | _, _ => false
   end.
-Definition check_dispatch (fx : fixes) (f : dfam) (g : geomk) (m : meank) (cond fd insupp : bool) (o : outcome) : bool :=
-  outcome_eqb (dispatch fx f g m cond fd insupp) o.
+Definition check_dispatch (fx : fixes) (f : dfam) (g : geomk) (m : meank) (r : route) (cond fd insupp : bool) (o : outcome) : bool :=
+  outcome_eqb (dispatch fx f g m r cond fd insupp) o.
